@@ -23,6 +23,7 @@ def spaces(tier):
             dict(family='observer', size=1, level=0, cfg='K0', t0=['empty', 'full', 'dir_d_j', 'file_d_e'], mut='all'),
             dict(family='chain3', size=3, level=0, cfg='K0', t0=['empty'], mut='outputs'),
             dict(family='chain3', size=3, level=1, cfg='K0', t0=['empty'], mut='none'),
+            dict(family='if', size=2, level=0, cfg='K0', t0=['empty', 'file_i', 'dir_d_j'], mut='all'),
             dict(size=1, level=0, cfg='K0', t0=['empty', 'full', 'dir_d_j', 'file_d'], mut='all'),
             dict(size=1, level=1, cfg='K0', t0=['empty', 'full'], mut='all'),
             dict(size=1, level=2, cfg='K1', t0=['empty', 'dir_d_e'], mut='rel'),
@@ -34,6 +35,8 @@ def spaces(tier):
     return [
         dict(family='observer', size=1, level=l, cfg=c, t0=list(gen.T0S), mut='all')
         for l in (0, 1) for c in ('K0', 'K1')
+    ] + [
+        dict(family='if', size=2, level=l, cfg='K0', t0=list(gen.T0S), mut='all') for l in (0, 1)
     ] + [
         dict(size=1, level=l, cfg=c, t0=list(gen.T0S), mut='all')
         for l in (0, 1, 2, 3) for c in ('K0', 'K1')
